@@ -166,19 +166,76 @@ func (x *Ctx) mustBlock(rule, key string, f *ssa.Function, l *paths.Loop, A path
 	return x.C.Obl(rule, key, x.pos(f), desc, len(sv) == 0, "the following path(s) reach success / the next iteration although the required condition is false or never tested:\n"+renderPaths(sv, 3))
 }
 
-// countedLoops returns the recognised counted loops of f whose bound rendering is one of bounds
-// and that start at 0.
+// loopAt is a loop on the paths of a function: one of its own, or a loop of a helper spliced into
+// them (Sub maps the helper's parameters to the caller's terms).
+type loopAt struct {
+	L   *paths.Loop
+	Sub map[string]*paths.Term
+}
+
+// loopsIn lists the loops that appear on f's enumerated paths.
+func loopsIn(f *ssa.Function) []loopAt {
+	var out []loopAt
+	var walk func(g *ssa.Function, sub map[string]*paths.Term, depth int, active map[*ssa.Function]bool)
+	walk = func(g *ssa.Function, sub map[string]*paths.Term, depth int, active map[*ssa.Function]bool) {
+		for _, l := range paths.Info(g).Loops {
+			out = append(out, loopAt{l, sub})
+		}
+		if depth >= paths.MaxInlineDepth || paths.Inlineable == nil {
+			return
+		}
+		for _, b := range g.Blocks {
+			for _, in := range b.Instrs {
+				c, ok := in.(*ssa.Call)
+				if !ok {
+					continue
+				}
+				h, isFn := c.Call.Value.(*ssa.Function)
+				if !isFn || active[h] || len(h.Blocks) == 0 || !paths.Inlineable(h) {
+					continue
+				}
+				ct := paths.DetachedTerm(g, c)
+				if sub != nil {
+					ct = ct.Subst(sub)
+				}
+				if ct.Op != "call" {
+					continue
+				}
+				active[h] = true
+				walk(h, paths.BindArgs(h, ct), depth+1, active)
+				delete(active, h)
+			}
+		}
+	}
+	walk(f, nil, 0, map[*ssa.Function]bool{f: true})
+	return out
+}
+
+// fullRangeLoops returns the recognised counted loops on f's paths (its own and those of helpers
+// spliced into them) that start at 0 and whose bound rendering, in f's terms, is one of bounds.
 func fullRangeLoops(f *ssa.Function, bounds ...string) []*paths.Loop {
 	var out []*paths.Loop
-	fi := paths.Info(f)
-	for _, l := range fi.Loops {
+	for _, la := range fullRangeLoopsAt(f, bounds...) {
+		out = append(out, la.L)
+	}
+	return out
+}
+
+func fullRangeLoopsAt(f *ssa.Function, bounds ...string) []loopAt {
+	var out []loopAt
+	for _, la := range loopsIn(f) {
+		l := la.L
 		if l.IV == nil || l.Start != 0 {
 			continue
 		}
-		b := paths.DetachedTerm(f, l.Bound).String()
+		bt := paths.DetachedTerm(l.Fn, l.Bound)
+		if la.Sub != nil {
+			bt = bt.Subst(la.Sub)
+		}
+		b := bt.String()
 		for _, want := range bounds {
 			if b == want {
-				out = append(out, l)
+				out = append(out, la)
 				break
 			}
 		}
@@ -186,7 +243,14 @@ func fullRangeLoops(f *ssa.Function, bounds ...string) []*paths.Loop {
 	return out
 }
 
-func ivName(l *paths.Loop) string { return fmt.Sprintf("iv#%d", l.Index) }
+// ivName is the name of the loop's induction variable on enumerated paths (loops of spliced helpers
+// carry the helper's name).
+func ivName(l *paths.Loop) string {
+	if paths.Inlineable != nil && paths.Inlineable(l.Fn) {
+		return fmt.Sprintf("iv#%s:%d", paths.FuncName(l.Fn), l.Index)
+	}
+	return fmt.Sprintf("iv#%d", l.Index)
+}
 
 // stripDIDString removes a did.DID.String() wrapper so that comparisons of the textual form
 // are recognised as comparisons of the DID (the text is an injective rendering of the bytes).
@@ -418,4 +482,21 @@ func eqs(a, b string) string {
 		a, b = b, a
 	}
 	return "eq(" + a + "," + b + ")"
+}
+
+// call renders a call of the named function with the given argument renderings as callers' paths
+// show it (trivial wrappers are seen through, see paths.TrivialWrapper).
+func (x *Ctx) call(short string, args ...string) string {
+	return paths.CallString(x.P.Func(short), short, args...)
+}
+
+// sitePaths gives the enumerated paths on which the instructions of f appear: f's own paths, or, for
+// a helper that did not exist on the confirmed tree, the paths of the confirmed functions it is
+// spliced into (so a guard established by the caller before the helper call is on the path).
+func (x *Ctx) sitePaths(f *ssa.Function) []*paths.Path {
+	var out []*paths.Path
+	for _, o := range x.P.PathOwners(f) {
+		out = append(out, x.pathsQuiet(o)...)
+	}
+	return out
 }
